@@ -171,6 +171,106 @@ def spacing(ctx, mac, pf, pid, init, subs):
     r.floor("spacing-cases", n)
 
 
+def list_dot(ctx, mac, lexpr):
+    """Inside a list the text parser takes `.` for the dotted-tail marker only when a delimiter follows it; a `.`
+    glued to more punctuation starts a symbol (`...`, `.+`).  Rust reports that as Spacing::Joint.  The macro's
+    list parser is evaluated on token vectors [Punct(c, spacing), next] - every punctuation character, both
+    spacings, each kind of following token - with the parser's own token bookkeeping (peek / eat_token / direct
+    look-ahead into the vector) evaluated as written: it must take the tail branch (consume the token, then parse
+    the tail) exactly for `.` standing Alone, and hand every other token to the element parser unconsumed."""
+    r = ctx.rule("R-MACRO-DOT", "in a list, the macro takes a `.` for the dotted-tail marker exactly when it stands Alone; "
+                                "a `.` Joint with following punctuation (`...`) and every other punctuation character "
+                                "go to the element parser, whatever token follows")
+    pl = mac.fn("parser::parse_list")
+    sp = mac.ext_adts.get("proc_macro2::Spacing")
+    tt = mac.ext_adts.get("proc_macro2::TokenTree")
+    pa = mac.adts.get("parser::Parser")
+    if pl is None or not sp or not tt or not pa:
+        r.anchor_missing("parser::parse_list / parser::Parser / proc_macro2::Spacing / TokenTree")
+        return
+    vidx = {v["name"]: v["idx"] for v in tt["variants"]}
+    pfields = pa["variants"][0]["fields"]
+    vec_fields = [i for i, f in enumerate(pfields) if f["ty"].startswith("std::vec::Vec<proc_macro2::TokenTree")]
+    idx_fields = [i for i, f in enumerate(pfields) if f["ty"] == "usize"]
+    if len(vec_fields) != 1 or len(idx_fields) != 1 or len(pfields) != 2:
+        r.anchor_missing("parser::Parser { tokens: Vec<TokenTree>, index: usize } (fields %s)" % [f["ty"] for f in pfields])
+        return
+    leaf = {"parser::Parser::parse_octothorpe", "parser::Parser::parse_identifier", "parser::parse_vector",
+            "parser::string_literal", "parser::Parser::parse"}
+    inline = lambda a, b: b.crate == mac.name and b.file.endswith("parser.rs") and b.path not in leaf
+    spv = {v["name"]: Adt("proc_macro2::Spacing", v["idx"], [], v["name"]) for v in sp["variants"]}
+
+    def punct(c, s):
+        return Adt("proc_macro2::TokenTree", vidx["Punct"], [Adt("proc_macro2::Punct", 0, [c, spv[s]])], "Punct")
+
+    def other(kind):
+        return Adt("proc_macro2::TokenTree", vidx[kind], [sim.Opq(kind.lower())], kind)
+
+    followers = {
+        "Alone": [("nothing", []), ("an identifier", [other("Ident")]), ("a literal", [other("Literal")]),
+                  ("a literal and an identifier", [other("Literal"), other("Ident")]),
+                  ("two literals", [other("Literal"), other("Literal")]),
+                  ("a group", [other("Group")]),
+                  ("`...`", [punct(0x2E, "Joint"), punct(0x2E, "Joint"), punct(0x2E, "Alone")]),
+                  ("an unquote", [punct(0x2C, "Alone"), other("Ident")])],
+        "Joint": [("`.`", [punct(0x2E, "Alone")]), ("`..`", [punct(0x2E, "Joint"), punct(0x2E, "Alone")]),
+                  ("`+`", [punct(0x2B, "Alone")]), ("`=` glued on", [punct(0x3D, "Joint"), punct(0x3E, "Alone")])],
+        # (a `.` glued to an unquote, `.,x`, is outside the documented syntax and not examined)
+    }
+    n = 0
+    for sname in ("Alone", "Joint"):
+        for c in PUNCT:
+            for fname, rest in followers[sname]:
+                toks = [punct(c, sname)] + rest
+
+                def hook(S, fn, bb, t, args, path, toks=toks):
+                    p = t["callee"].get("path", "")
+                    if p == "parser::Parser::new":
+                        fs = [None, None]
+                        fs[vec_fields[0]] = Adt("sim::Vec", 0, [sim.Tup(list(toks))])
+                        fs[idx_fields[0]] = 0
+                        return ("value", Adt("parser::Parser", 0, fs))
+                    if p in ("proc_macro2::Punct::as_char", "proc_macro2::Punct::spacing"):
+                        pv = S._deref(args[0], path)
+                        if isinstance(pv, Adt) and pv.adt == "proc_macro2::Punct":
+                            return ("value", pv.fields[0 if p.endswith("as_char") else 1])
+                        return ("value", UNK)
+                    if p == "parser::Parser::parse":
+                        pv = S._deref(args[0], path)
+                        at = pv.fields[idx_fields[0]] if isinstance(pv, Adt) and pv.adt == "parser::Parser" else None
+                        return ("stop", {0: "element", 1: "tail"}.get(at, "?index"))
+                    if p in leaf:
+                        return ("value", UNK)
+                    return None
+
+                S = sim.Sim([mac], hooks={"call": hook}, inline=inline, max_paths=2000, max_depth=6, max_visits=3)
+                outs = set()
+                try:
+                    for pth in S.run(pl):
+                        if pth.end in ("stop:tail", "stop:element"):
+                            outs.add(pth.end[5:])
+                        else:
+                            outs.add("?" + str(pth.end))
+                except sim.Limit:
+                    outs = {"?limit"}
+                n += 1
+                want = {"tail"} if (c == 0x2E and sname == "Alone") else {"element"}
+                what = "%r with Spacing::%s followed by %s" % (chr(c), sname, fname)
+                if outs == want:
+                    r.ok("%s -> %s" % (what, sorted(want)[0]), pl)
+                elif any(o.startswith("?") for o in outs):
+                    r.violation("lexpr_macros::" + pl.path, "inexact:%s:%s:%s" % (sname, chr(c), fname),
+                                "the list parser's treatment of %s could not be evaluated (%s)" % (what, sorted(outs)), pl.loc())
+                else:
+                    r.violation("lexpr_macros::" + pl.path, "list-dot:%s:%s:%s" % (sname, chr(c), fname),
+                                "in a list, %s is %s by sexp!, but the text parser reads %s: `(a ...)` / `(a . ...)` / "
+                                "`(-1 x)` style input gives different values" % (
+                                    what, " or ".join("consumed by the list parser itself (as the dotted-tail marker or otherwise)"
+                                                      if o == "tail" else "handed to the element parser" for o in sorted(outs)),
+                                    "the dotted-tail marker" if want == {"tail"} else "it as (the start of) an element"), pl.loc())
+    r.floor("list-dot-cases", n)
+
+
 def run(ctx):
     db = ctx.facts(["poly"])
     lexpr = db.crate("lexpr")
@@ -202,6 +302,7 @@ def run(ctx):
         r.anchor_missing("punctuation accepted by lexpr_macros Parser::parse / parse_identifier (none found)")
         return
     spacing(ctx, mac, pf, pid, init, subs)
+    list_dot(ctx, mac, lexpr)
     r.floor("initial-chars", len(init))
     r.floor("subsequent-chars", len(subs))
     # text parser: which first bytes can yield a symbol (default options; ':' with prefix keywords off)
